@@ -336,6 +336,61 @@ def replayer(obd):
     return {"reproduced": False, "input": {"type": tname, "value": v, "other_operand": w}, "expected": repr(first[0]), "actual": repr(first[1])}
 
 
+def unit_ops_bounded(chunk):
+    """bounded stand-in (never counted as proved): the arithmetic and comparison dunders with operands that are not integers
+    (float, bool, None, str) and with concrete integer operands where the symbolic unit treats the
+    operation as uninterpreted (shifts, powers, bit operations): for sample values of every class, typed OP x and x OP typed
+    give what int(value) OP x gives - the same result or the same exception class"""
+    import operator
+    from decimal import Decimal
+    from fractions import Fraction
+
+    u = UnitResult(f"XOPS/{chunk[0]}..{chunk[-1]}")
+    u.functions = FUNCS
+    L = layout()["primitives"]
+    ops = {n: getattr(operator, n if n not in ("and", "or") else n + "_") for n in BIN_OPS + CMP_OPS}
+    ops["divmod"] = divmod
+    others = [0.5, 5.5, -1.5, 2.0, True, None, "3", 3, -3, 0, 7, 64, 2**63]  # (Fraction / Decimal / complex operands are not claimed: their own reflected-operand rules differ for foreign number types)
+
+    def out(f):
+        try:
+            r = f()
+            if isinstance(r, float) and r != r:
+                return ("value", "nan")
+            return ("value", r if not hasattr(r, "_pyvc_typed") else int(r))
+        except Exception as e:  # noqa
+            return ("raise", type(e).__name__)
+
+    dis, n = [], 0
+    for tname in chunk:
+        T = get_type(tname)
+        P = L[tname]
+        lo = -(1 << (8 * P["width"] - 1)) if P["signed"] else 0
+        hi = (1 << (8 * P["width"] - (1 if P["signed"] else 0))) - 1
+        vals = []
+        for v in (0, 1, 5, lo, hi):
+            try:
+                vals.append((v, T(v)))
+            except Exception:  # noqa
+                pass
+        for v, tv in vals[:4]:
+            for x in others:
+                if isinstance(x, int) and not isinstance(x, bool) and abs(x) > 64 and abs(v) > 2**16:
+                    continue  # avoid astronomically large powers / shifts
+                for nm, f in ops.items():
+                    if nm in ("pow", "lshift") and isinstance(x, int) and not isinstance(x, bool) and (abs(x) > 64 or abs(v) > 2**16):
+                        continue
+                    for side in ("left", "right"):
+                        n += 1
+                        a = out((lambda: f(tv, x)) if side == "left" else (lambda: f(x, tv)))
+                        e = out((lambda: f(v, x)) if side == "left" else (lambda: f(x, v)))
+                        if a != e and not (a[0] == e[0] == "value" and isinstance(a[1], (int, float)) and isinstance(e[1], (int, float)) and not isinstance(a[1], bool) and a[1] == e[1] and type(a[1]) is type(e[1])):
+                            dis.append({"input": {"type": tname, "value": v, "operand": repr(x), "op": nm, "side": side}, "detail": f"{tname}({v}) {nm} {x!r} ({side}): {a}, the plain integer gives {e}", "site": "base_type.py:numeric"})
+    u.bounded.append({"name": f"operators/{chunk[0]}..{chunk[-1]}", "bound": "up to 4 sample values per class x 13 operands (float, bool, None, str, small and large ints) x 19 operators x both sides", "evaluations": n, "disagreements": dis[:8], "all_disagreements": len(dis)})
+    u.obligations.append({"name": f"{u.name}/ran", "kind": "bounded-bookkeeping", "site": "", "status": "proved", "backend": "bookkeeping", "seconds": 0, "model": None, "detail": f"{n} operations"})
+    return u
+
+
 def run(tier, seed, only=None, pid="C16", which=("INT", "VALID", "BYTES", "NAME", "HASH", "OPS")):
     rep = Report(pid, tier, seed, "proof", f"./check {pid} (pyvc: the real typed-integer machinery interpreted per class over a symbolic integer; z3/cvc5)",
                  explanation="for each primitive class, every path of the real construction/validity/serialisation/naming/operator code over a symbolic integer in the type's width meets the spec derived from the pinned layout")
@@ -347,11 +402,13 @@ def run(tier, seed, only=None, pid="C16", which=("INT", "VALID", "BYTES", "NAME"
     names = sorted(t.__name__ for t in prim_types())
     jobs = [(unit_class, (n, which)) for n in names]
     jobs.append((unit_canary, ()))
+    if "OPS" in which:
+        jobs += [(unit_ops_bounded, (tuple(names[i:i + 8]),)) for i in range(0, len(names), 8)]
     if only:
         jobs = [j for j in jobs if only in repr(j)]
     # biggest first for load balance
     big = {"TPM_CC": 0, "TPM_ALG": 1, "TPM_ALG_ID": 1, "TPM_RC": 2}
-    jobs.sort(key=lambda j: big.get(j[1][0] if j[1] else "", 9))
+    jobs.sort(key=lambda j: big.get(j[1][0] if j[1] and isinstance(j[1][0], str) else "", 9))
     rep.add(run_units(jobs))
     rep.min_obligations = 1000
     return rep.finish()
